@@ -91,6 +91,20 @@ def rxBody : List Char → List RxItem
   | '_' :: rest => .any :: rxBody rest
   | c :: rest => .lit c :: rxBody rest
 
+/-- `regex_syntax::is_meta_character` (external crate) -/
+def isMetaChar (c : Char) : Bool :=
+  ['\\', '.', '+', '*', '?', '(', ')', '|', '[', ']', '{', '}', '^', '$', '#', '&', '-', '~'].contains c
+
+/-- the text `regex_like` pushes for one item: literals are backslash-escaped when they are regex
+metacharacters, `_` → `.`, `%` → `.*` -/
+def renderItem : RxItem → List Char
+  | .lit c => if isMetaChar c then ['\\', c] else [c]
+  | .any => ['.']
+  | .star => ['.', '*']
+
+/-- the text of `result` after the loop (`pre` is `"^"` or `""`) -/
+def renderBody (pre : List Char) (items : List RxItem) : List Char := pre ++ items.flatMap renderItem
+
 /-- the end of `regex_like`: `if result.ends_with(".*") { pop; pop } else { push('$') }` -/
 def regexTail (as : Bool) (items : List RxItem) : Rx :=
   if items.getLast? = some .star then ⟨as, items.dropLast, false⟩ else ⟨as, items, true⟩
